@@ -33,10 +33,29 @@ func concPolicy(args []string, out *bufio.Writer) {
 		} else {
 			o.MaximumSize = maxv
 		}
+		// every fourth script stalls the executor: the maintenance task is scheduled but never runs, the write buffer fills
+		// up (128 * rounded GOMAXPROCS events) and writers fall back to performing the maintenance themselves, handing their
+		// own event over directly (afterWriteTask → performCleanUp(t)); the queued tasks run at the end of the round
+		stall := i%4 == 3
+		var (
+			stMu     sync.Mutex
+			stQueued []func()
+		)
+		if stall {
+			o.Executor = func(fn func()) {
+				stMu.Lock()
+				stQueued = append(stQueued, fn)
+				stMu.Unlock()
+			}
+		}
 		c := otter.Must(o)
 		nkeys := 2 + r.intn(8)
 		writers := 2 + r.intn(7)
 		rounds := 10 + r.intn(20)
+		if stall {
+			writers = 1 + r.intn(3)
+			rounds = 2 + r.intn(3)
+		}
 		for round := 0; round < rounds; round++ {
 			var wg sync.WaitGroup
 			for w := 0; w < writers; w++ {
@@ -45,9 +64,17 @@ func concPolicy(args []string, out *bufio.Writer) {
 				go func(w int) {
 					defer wg.Done()
 					lr := &rng{s: ws}
-					for j := 0; j < 40+lr.intn(200); j++ {
+					ops := 40 + lr.intn(200)
+					if stall {
+						ops = (160*runtime.GOMAXPROCS(0))/writers + lr.intn(400)
+					}
+					for j := 0; j < ops; j++ {
 						k := lr.intn(nkeys)
-						switch lr.intn(10) {
+						op := lr.intn(10)
+						if stall && op > 6 {
+							op = 0 // writes only: every operation adds an event
+						}
+						switch op {
 						case 0, 1, 2, 3, 4, 5:
 							c.Set(k, j*16+w)
 						case 6:
@@ -69,6 +96,21 @@ func concPolicy(args []string, out *bufio.Writer) {
 				}(w)
 			}
 			wg.Wait()
+			_, wbFull, _ := otter.VerifDrainState(c)
+			if stall {
+				for {
+					stMu.Lock()
+					q := stQueued
+					stQueued = nil
+					stMu.Unlock()
+					if len(q) == 0 {
+						break
+					}
+					for _, fn := range q {
+						fn()
+					}
+				}
+			}
 			for t := 0; t < 400; t++ {
 				ds, wb, free := otter.VerifDrainState(c)
 				if ds == 0 && wb == 0 && free {
@@ -84,7 +126,7 @@ func concPolicy(args []string, out *bufio.Writer) {
 			for range c.All() {
 				all++
 			}
-			fmt.Fprintf(out, "audit round=%d %s all=%d coldest=%d wsize=%d\n", round, otter.VerifAudit(c), all, coldest, c.WeightedSize())
+			fmt.Fprintf(out, "audit round=%d %s all=%d coldest=%d wsize=%d stalled=%v wbpeak=%d\n", round, otter.VerifAudit(c), all, coldest, c.WeightedSize(), stall, wbFull)
 		}
 		c.StopAllGoroutines()
 	}
